@@ -99,12 +99,18 @@ def scenarios() -> list[tuple]:
         for ini in initiators:
             for ph in phases:
                 out.append((h, ini, ph))
+        # the same abandonment, but every relay/exit on the path also *wants* circuits of its own that it cannot
+        # build (it knows no exit): its periodic do_circuits() takes the "creation failed" branch before the sweep
+        for ph in phases:
+            out.append((h, "offline+busy", ph))
     return out
 
 
 def run_one(scn: tuple, faults: dict[int, str], seed: int):  # noqa: ANN201
     """Returns (violations, n_fault_candidates, observation)."""
     h, ini, (phase, k) = scn
+    busy = ini.endswith("+busy")
+    ini = ini.split("+")[0]
     path = PATHS[h]
     viol = []
     w = TunnelWorld(("c09", seed, scn), ROLES, key_offset=seed)
@@ -130,6 +136,11 @@ def run_one(scn: tuple, faults: dict[int, str], seed: int):  # noqa: ANN201
                         t.inject(BT_PAYLOAD, ("9.9.9.9", 99))
                 w.send_out("O", c, ("9.9.9.9", 99), BT_PAYLOAD)   # left in flight
                 w.loop.settle()
+        if busy:
+            for name in path:
+                o = ov[name]
+                o.candidates.clear()            # knows nobody it could build through ...
+                o.circuits_needed[1] = 1        # ... but wants a circuit: create_circuit fails on every do_circuits()
         # who holds what right now (white box): the initiator tears down whatever entry it has for this circuit
         plan.arm()
         t0 = w.loop.time()
